@@ -433,6 +433,21 @@ var C02 = &sqrun.Check{ID: "C02", QuickBudget: 60, ThoroughBudget: 600,
 				k.fail("C02: NewID/NewType acceptance differs from 'contains no CR/LF'", fmt.Sprintf("NewID(%q) error %v, NewType error %v, multiline=%v", p, e1, e2, multiline(p)), p)
 			}
 		}
+		// the same through the JSON route, also with the raw bytes between quotes (what a lenient decoder hands over):
+		// whatever comes out set must be a single line and travel as itself
+		for _, p := range payloads {
+			if strings.ContainsAny(p, "\"\\") {
+				continue
+			}
+			k.cases.Add(1)
+			var id sse.EventID
+			if err := id.UnmarshalJSON([]byte("\"" + p + "\"")); err == nil && id.IsSet() {
+				if multiline(id.String()) {
+					k.fail("C02: an ID accepted through UnmarshalJSON contains CR or LF", fmt.Sprintf("UnmarshalJSON(%q) -> %q", "\""+p+"\"", id.String()), p)
+					break
+				}
+			}
+		}
 		var fields []string
 		for _, p := range Strings(c02Tokens, 2) {
 			if validField(p) {
